@@ -1,0 +1,38 @@
+//go:build verif
+
+// Contracts for package alloc, checked by /verif/govc (see /verif/DESIGN.md).
+// This file contains only comments: it adds no code to any build.
+
+package alloc
+
+// Assumed contracts of the mmap system calls (golang.org/x/sys/unix).
+//@ extern golang.org/x/sys/unix.Mmap
+//@   sig func(fd int, offset int64, length int, prot int, flags int) (data []byte, err error)
+//@   alloc    length
+//@   ensures  err == nil ==> data != nil && len(data) == length && cap(data) == length && fresh_(data)
+//@   ensures  err != nil ==> data == nil
+
+//@ extern golang.org/x/sys/unix.Munmap
+//@   sig func(b []byte) (err error)
+//@   noalloc
+
+// SaneCounter: the global byte counter is nowhere near the limits of int64
+// (it counts bytes of RAM); callers carry this as a precondition.
+//@ spec SaneCounter() bool
+//@   body allocated >= -(1<<60) && allocated <= 1<<60
+
+//@ func Alloc
+//@   requires size >= 0 && size <= 1<<32 && SaneCounter()
+//@   modifies allocated
+//@   ensures  [ok]   $r1 == nil ==> $r0 != nil && len($r0) == size && cap($r0) == size && fresh_($r0) && allocated == old(allocated) + int64(size)
+//@   ensures  [err]  $r1 != nil ==> $r0 == nil && allocated == old(allocated)
+//@   props    C01 C03
+
+//@ func Free
+//@   requires SaneCounter()
+//@   modifies allocated
+//@   ensures  [acct] allocated == old(allocated) - int64(cap(p))
+//@   props    C01 C03
+
+//@ func Bytes
+//@   props    C03
